@@ -82,6 +82,14 @@ def relabel(params):
     if dtype != "uint8":
         random.Random(4).shuffle(small)
         small = small[:1500]
+        # the same family with LARGE label names in a small array (sparse label space)
+        ren = {1: 700, 2: 900, 3: 901, 4: 65000}
+        for pred, ref, lm in small[:400]:
+            p2, r2 = pred.astype(dtype), ref.astype(dtype)
+            for k, v in ren.items():
+                p2[pred == k] = v
+                r2[ref == k] = v
+            cases.append((p2, r2, {ren[p]: ren[r] for p, r in lm.items()}))
     cases += small
     for pred, ref, lm in cases:
         if len(bad) >= 3:
@@ -127,6 +135,12 @@ def bounded(params):
                     bad = [f"raised {type(e).__name__}: {e}"[:160]]
                 if bad and len(failures) < 5:
                     failures.append({"input": {"pred": pred.tolist(), "ref": ref.tolist(), "matcher": mt_name}, "problems": bad[:3], "replay_kind": "c04.e2e"})
+    from . import c09 as _c09
+    for dt_ in ("uint8", "uint16", "uint32"):
+        for res, kind in ((relabel({"dtype": dt_}), "c04.relabel"), (_c09.maplabels({"dtype": dt_}), "c09.maplabels")):
+            evals += 1
+            for pb in res["problems"][:1]:
+                failures.append({"input": {"dtype": dt_, "case": pb}, "problems": [str(pb)[:300]], "replay_kind": kind, "witness_class": res.get("witness_class")})
     return {"evaluations": evals, "distinct_nontrivial": nontriv, "failures": failures,
             "rule": "seeded 1-D instance-map pairs (length 6, <=3 labels) x reference relabelling {identity, non-consecutive, near 255} x {naive, many-to-one, merge}; non-trivial = at least one unmatched prediction",
             "bound": "length 6; quick 200 pairs"}
